@@ -38,17 +38,19 @@ type dyn struct {
 }
 
 type result struct {
-	edges      []edge
-	rdvs       []rdv
-	bufUnder   []rdv
-	leaks      []leak
-	fields     []string
-	fieldVar   map[*types.Var]int
-	accs       []acc
-	atomic     []string
-	dyns       []dyn
-	entry      map[string][]int
-	funcsTotal int
+	edges       []edge
+	rdvs        []rdv
+	bufUnder    []rdv
+	leaks       []leak
+	fields      []string
+	fieldVar    map[*types.Var]int
+	accs        []acc
+	atomic      []string
+	dyns        []dyn
+	entry       map[string][]int
+	funcsTotal  int
+	sharedPaths []sharedPath
+	joins       []join
 }
 
 func sortedLocks(l lockset) []int {
@@ -620,6 +622,29 @@ func (a *analysis) emit(res *result) string {
 			sep = ""
 		}
 		p("  (%s, %s, %s)%s\n", coqStr(d.fn), coqStr(d.desc), coqNList(d.locks), sep)
+	}
+	p("].\n\n")
+	p("(* rule P: insertions of a *route.Path into a table that stores the pointer (LocRIB / AdjRIBIn AddPath) whose path\n")
+	p("   object may be inserted again or is written by the caller afterwards: (function, kind, callee) *)\n")
+	p("Definition shared_path_sites : list (string * string * string) := [\n")
+	for i, x := range res.sharedPaths {
+		sep := ";"
+		if i == len(res.sharedPaths)-1 {
+			sep = ""
+		}
+		p("  (%s, %s, %s)%s\n", coqStr(x.fn), coqStr(x.kind), coqStr(x.callee), sep)
+	}
+	p("].\n\n")
+	p("(* rule J: goroutines a type starts on itself and the functions that address them through a channel / WaitGroup\n")
+	p("   field of the type: (type, starting function, goroutine, addressing function, kind) with kind = rendezvous |\n")
+	p("   waitgroup (the function waits for the goroutine) | close-only | buffered-send (it only signals) *)\n")
+	p("Definition goroutine_joins : list (string * string * string * string * string) := [\n")
+	for i, x := range res.joins {
+		sep := ";"
+		if i == len(res.joins)-1 {
+			sep = ""
+		}
+		p("  (%s, %s, %s, %s, %s)%s\n", coqStr(x.typ), coqStr(x.start), coqStr(x.goroutine), coqStr(x.teardown), coqStr(x.kind), sep)
 	}
 	p("].\n\n")
 	p("Definition analysed_functions : N := %d.\n", res.funcsTotal)
